@@ -1,11 +1,953 @@
-// Package c19: correspondence ops for C19 (stub, not yet built).
+// Package c19: NodePool weight and price ordering — real code vs Lean model/spec.
+//
+// Leaf ops drive nodepoolutils.OrderByWeight, InstanceTypes.OrderByPrice/Truncate, Offerings.Available/
+// Compatible/Cheapest/MostExpensive, NodeClaimTemplate.ToNodeClaim and (through the verif hook
+// ParallelizeUntilForVerif) parallelizeUntil; c19.pass drives whole passes of the real Provisioner
+// (Schedule + CreateNodeClaims on the controller-runtime fake client) with weighted NodePools.
 package c19
 
 import (
+	"context"
+	"encoding/json"
+	"fmt"
+	"math/rand/v2"
+	"runtime"
+	"sort"
+	"sync"
+	"sync/atomic"
+
+	"github.com/samber/lo"
+	corev1 "k8s.io/api/core/v1"
+	"k8s.io/apimachinery/pkg/api/resource"
+	metav1 "k8s.io/apimachinery/pkg/apis/meta/v1"
+
+	v1 "sigs.k8s.io/karpenter/pkg/apis/v1"
+	"sigs.k8s.io/karpenter/pkg/cloudprovider"
+	provscheduling "sigs.k8s.io/karpenter/pkg/controllers/provisioning/scheduling"
+	"sigs.k8s.io/karpenter/pkg/operator/options"
+	"sigs.k8s.io/karpenter/pkg/scheduling"
+	"sigs.k8s.io/karpenter/pkg/test"
+	nodepoolutils "sigs.k8s.io/karpenter/pkg/utils/nodepool"
+
 	"verifharness/internal/core"
 	"verifharness/internal/registry"
 )
 
 func init() { registry.Register("C19", Ops) }
 
-func Ops() []*core.Op { return nil }
+// ---------------------------------------------------------------------------------------------
+// shared JSON vocabulary
+// ---------------------------------------------------------------------------------------------
+
+type ReqJ struct {
+	Key  string   `json:"key"`
+	Op   string   `json:"op"` // In | NotIn | Exists | DoesNotExist
+	Vals []string `json:"vals"`
+}
+
+type OffJ struct {
+	Zone  string `json:"zone"`
+	Ct    string `json:"ct"`
+	Price int    `json:"price"` // price × 1024 (dyadic grid: exact as float64)
+	Avail bool   `json:"avail"`
+	Rid   string `json:"rid,omitempty"` // reservation id (capacity type "reserved" only)
+	Cap   int    `json:"cap,omitempty"` // reservation capacity
+}
+
+type TypeJ struct {
+	Name      string `json:"name"`
+	Offerings []OffJ `json:"offerings"`
+	CPU       int    `json:"cpu,omitempty"`      // capacity, milli-cores (pass only)
+	Pods      int    `json:"pods,omitempty"`     // pod capacity (pass only)
+	Overhead  int    `json:"overhead,omitempty"` // kube-reserved cpu, milli-cores (pass only)
+}
+
+const (
+	zoneKey = corev1.LabelTopologyZone
+	ctKey   = v1.CapacityTypeLabelKey
+	itKey   = corev1.LabelInstanceTypeStable
+)
+
+var zones = []string{"z1", "z2", "z3"}
+var cts = []string{v1.CapacityTypeSpot, v1.CapacityTypeOnDemand}
+var ops = []string{"In", "NotIn", "Exists", "DoesNotExist"}
+
+func mkReq(r ReqJ) *scheduling.Requirement {
+	return scheduling.NewRequirement(r.Key, corev1.NodeSelectorOperator(r.Op), r.Vals...)
+}
+
+func mkReqs(rs []ReqJ) scheduling.Requirements {
+	return scheduling.NewRequirements(lo.Map(rs, func(r ReqJ, _ int) *scheduling.Requirement { return mkReq(r) })...)
+}
+
+func mkOfferings(os []OffJ) cloudprovider.Offerings {
+	out := cloudprovider.Offerings{}
+	for _, o := range os {
+		labels := map[string]string{ctKey: o.Ct, zoneKey: o.Zone}
+		if o.Rid != "" {
+			labels[cloudprovider.ReservationIDLabel] = o.Rid
+		}
+		out = append(out, &cloudprovider.Offering{
+			Available:           o.Avail,
+			Price:               float64(o.Price) / 1024.0,
+			ReservationCapacity: o.Cap,
+			Requirements:        scheduling.NewLabelRequirements(labels),
+		})
+	}
+	return out
+}
+
+// bare instance type: what the leaf functions look at (Name, Offerings, the instance-type requirement)
+func mkBareType(t TypeJ) *cloudprovider.InstanceType {
+	return &cloudprovider.InstanceType{
+		Name:         t.Name,
+		Offerings:    mkOfferings(t.Offerings),
+		Requirements: scheduling.NewRequirements(scheduling.NewRequirement(itKey, corev1.NodeSelectorOpIn, t.Name)),
+	}
+}
+
+func priceInt(f float64) int { return int(f * 1024.0) }
+
+func names(its []*cloudprovider.InstanceType) []string {
+	out := make([]string, 0, len(its))
+	for _, it := range its {
+		out = append(out, it.Name)
+	}
+	return out
+}
+
+// ---- generators for the shared vocabulary ----
+
+var pricePool = []int{0, 1, 10, 100, 100, 250, 250, 512, 1024, 1024, 2048, 4000}
+
+func genOfferings(r *rand.Rand, maxN int) []OffJ {
+	n := r.IntN(maxN + 1)
+	out := make([]OffJ, 0, n)
+	for i := 0; i < n; i++ {
+		p := pricePool[r.IntN(len(pricePool))]
+		if r.IntN(6) == 0 {
+			p = r.IntN(5000)
+		}
+		out = append(out, OffJ{Zone: zones[r.IntN(len(zones))], Ct: cts[r.IntN(len(cts))], Price: p, Avail: r.IntN(5) != 0})
+	}
+	return out
+}
+
+func genReqs(r *rand.Rand) []ReqJ {
+	var out []ReqJ
+	n := 0
+	switch x := r.IntN(10); {
+	case x < 2:
+		n = 0
+	case x < 7:
+		n = 1
+	case x < 9:
+		n = 2
+	default:
+		n = 3
+	}
+	for i := 0; i < n; i++ {
+		key, dom := zoneKey, zones
+		if r.IntN(2) == 0 {
+			key, dom = ctKey, cts
+		}
+		op := ops[0]
+		switch x := r.IntN(10); {
+		case x < 5:
+			op = "In"
+		case x < 8:
+			op = "NotIn"
+		case x < 9:
+			op = "Exists"
+		default:
+			op = "DoesNotExist"
+		}
+		var vals []string
+		if op == "In" || op == "NotIn" {
+			for _, v := range dom {
+				if r.IntN(2) == 0 {
+					vals = append(vals, v)
+				}
+			}
+			if r.IntN(12) == 0 {
+				vals = append(vals, "elsewhere")
+			}
+			if op == "NotIn" && len(vals) == 0 { // NotIn [] is rejected by validation; keep it meaningful
+				vals = []string{dom[0]}
+			}
+		}
+		if vals == nil {
+			vals = []string{}
+		}
+		out = append(out, ReqJ{Key: key, Op: op, Vals: vals})
+	}
+	if out == nil {
+		out = []ReqJ{}
+	}
+	return out
+}
+
+func genTypes(r *rand.Rand, maxTypes, maxOff int) []TypeJ {
+	n := r.IntN(maxTypes + 1)
+	out := make([]TypeJ, 0, n)
+	perm := r.Perm(n)
+	for i := 0; i < n; i++ {
+		out = append(out, TypeJ{Name: fmt.Sprintf("t%02d", perm[i]), Offerings: genOfferings(r, maxOff)})
+	}
+	return out
+}
+
+// ---------------------------------------------------------------------------------------------
+// c19.weight — nodepoolutils.OrderByWeight
+// ---------------------------------------------------------------------------------------------
+
+type PoolJ struct {
+	Name   string `json:"name"`
+	Weight *int32 `json:"weight"`
+}
+
+type WeightIn struct {
+	Pools []PoolJ `json:"pools"`
+}
+
+type WeightOut struct {
+	Order []PoolOutJ `json:"order"`
+}
+
+type PoolOutJ struct {
+	Name   string `json:"name"`
+	Weight int    `json:"weight"` // lo.FromPtr(Spec.Weight)
+}
+
+var poolNames = []string{"a", "ab", "abc", "b", "B", "pool-1", "pool-10", "pool-2", "z", "zz", "default", "é", "gpu", "spot-pool", ""}
+var poolWeights = []int32{1, 1, 10, 10, 50, 50, 100, 100, 2, 99}
+
+func genWeight(r *rand.Rand, t core.Tier) any {
+	maxN := 8
+	if t == core.Thorough {
+		maxN = 24
+	}
+	n := r.IntN(maxN + 1)
+	in := WeightIn{Pools: []PoolJ{}}
+	few := r.IntN(2) == 0 // draw from few weights so that ties are the norm
+	for i := 0; i < n; i++ {
+		p := PoolJ{Name: poolNames[r.IntN(len(poolNames))]}
+		if r.IntN(4) == 0 {
+			p.Name = fmt.Sprintf("np-%d", r.IntN(30))
+		}
+		switch x := r.IntN(20); {
+		case x < 4:
+			p.Weight = nil
+		case x == 4:
+			p.Weight = lo.ToPtr(int32(0))
+		case x == 5: // outside the CRD range (1..100): the function must still order them
+			p.Weight = lo.ToPtr([]int32{-1, -100, 2147483647, -2147483648, 101}[r.IntN(5)])
+		default:
+			if few {
+				p.Weight = lo.ToPtr(poolWeights[r.IntN(4)])
+			} else {
+				p.Weight = lo.ToPtr(poolWeights[r.IntN(len(poolWeights))])
+			}
+		}
+		in.Pools = append(in.Pools, p)
+	}
+	return in
+}
+
+// every list of at most 3 pools over {a, ab, b} × {nil, 1, 2}
+func enumWeight(_ core.Tier) []any {
+	var univ []PoolJ
+	for _, n := range []string{"a", "ab", "b"} {
+		univ = append(univ, PoolJ{Name: n}, PoolJ{Name: n, Weight: lo.ToPtr(int32(1))}, PoolJ{Name: n, Weight: lo.ToPtr(int32(2))})
+	}
+	out := []any{WeightIn{Pools: []PoolJ{}}}
+	for _, a := range univ {
+		out = append(out, WeightIn{Pools: []PoolJ{a}})
+		for _, b := range univ {
+			out = append(out, WeightIn{Pools: []PoolJ{a, b}})
+			for _, c := range univ {
+				out = append(out, WeightIn{Pools: []PoolJ{a, b, c}})
+			}
+		}
+	}
+	return out
+}
+
+func implWeight(raw json.RawMessage) (any, error) {
+	var in WeightIn
+	if err := json.Unmarshal(raw, &in); err != nil {
+		return nil, err
+	}
+	nps := make([]*v1.NodePool, 0, len(in.Pools))
+	for _, p := range in.Pools {
+		np := &v1.NodePool{ObjectMeta: metav1.ObjectMeta{Name: p.Name}}
+		if p.Weight != nil {
+			np.Spec.Weight = lo.ToPtr(*p.Weight)
+		}
+		nps = append(nps, np)
+	}
+	nodepoolutils.OrderByWeight(nps)
+	out := WeightOut{Order: []PoolOutJ{}}
+	for _, np := range nps {
+		out.Order = append(out.Order, PoolOutJ{Name: np.Name, Weight: int(lo.FromPtr(np.Spec.Weight))})
+	}
+	return out, nil
+}
+
+func weightTie(in WeightIn) bool {
+	seen := map[int32]bool{}
+	for _, p := range in.Pools {
+		w := lo.FromPtr(p.Weight)
+		if seen[w] {
+			return true
+		}
+		seen[w] = true
+	}
+	return false
+}
+
+// ---------------------------------------------------------------------------------------------
+// c19.price — InstanceTypes.OrderByPrice and InstanceTypes.Truncate
+// ---------------------------------------------------------------------------------------------
+
+type PriceIn struct {
+	Reqs       []ReqJ  `json:"reqs"`
+	Types      []TypeJ `json:"types"`
+	Max        int     `json:"max"`
+	MinTypes   *int    `json:"min_types"`   // minValues on the instance-type key (nil = no minValues)
+	BestEffort bool    `json:"best_effort"` // MinValuesPolicy
+}
+
+type PriceOut struct {
+	Ordered   []string `json:"ordered"`   // OrderByPrice(reqs)
+	Truncated []string `json:"truncated"` // Truncate(ctx, reqs, max)
+	Err       string   `json:"err"`       // "" | "minvalues"
+}
+
+func genPrice(r *rand.Rand, t core.Tier) any {
+	maxT := 9
+	if t == core.Thorough && r.IntN(4) == 0 {
+		maxT = 40
+	}
+	in := PriceIn{Reqs: genReqs(r), Types: genTypes(r, maxT, 4)}
+	n := len(in.Types)
+	switch x := r.IntN(10); {
+	case x < 6:
+		in.Max = r.IntN(n + 1)
+	case x < 7:
+		in.Max = n
+	case x < 8:
+		in.Max = n + 1 + r.IntN(3)
+	case x < 9:
+		in.Max = 0
+	default:
+		in.Max = -1 - r.IntN(3)
+	}
+	if r.IntN(4) == 0 {
+		m := r.IntN(n + 2)
+		in.MinTypes = &m
+		in.BestEffort = r.IntN(3) == 0
+	}
+	return in
+}
+
+func ctxWith(bestEffort bool, cpuRequests int) context.Context {
+	o := test.Options()
+	if bestEffort {
+		o.MinValuesPolicy = options.MinValuesPolicyBestEffort
+	}
+	if cpuRequests >= 0 { // -1 = leave the default
+		o.CPURequests = int64(cpuRequests)
+	}
+	return options.ToContext(context.Background(), o)
+}
+
+func implPrice(raw json.RawMessage) (any, error) {
+	var in PriceIn
+	if err := json.Unmarshal(raw, &in); err != nil {
+		return nil, err
+	}
+	reqs := mkReqs(in.Reqs)
+	if in.MinTypes != nil {
+		reqs.Add(scheduling.NewRequirementWithFlexibility(itKey, corev1.NodeSelectorOpExists, in.MinTypes))
+	}
+	mk := func() cloudprovider.InstanceTypes {
+		its := cloudprovider.InstanceTypes{}
+		for _, t := range in.Types {
+			its = append(its, mkBareType(t))
+		}
+		return its
+	}
+	out := PriceOut{}
+	out.Ordered = names(mk().OrderByPrice(reqs))
+	tr, err := mk().Truncate(ctxWith(in.BestEffort, -1), reqs, in.Max)
+	out.Truncated = names(tr)
+	if err != nil {
+		out.Err = "minvalues"
+	}
+	return out, nil
+}
+
+// effective price as the harness sees it (labels only, not part of any verdict)
+func usableJ(reqs []ReqJ, o OffJ) bool {
+	if !o.Avail {
+		return false
+	}
+	for _, r := range reqs {
+		var v string
+		switch r.Key {
+		case zoneKey:
+			v = o.Zone
+		case ctKey:
+			v = o.Ct
+		default:
+			continue
+		}
+		in := lo.Contains(r.Vals, v)
+		switch r.Op {
+		case "In":
+			if !in {
+				return false
+			}
+		case "NotIn":
+			if in {
+				return false
+			}
+		case "DoesNotExist":
+			return false
+		}
+	}
+	return true
+}
+
+func effJ(reqs []ReqJ, t TypeJ) int {
+	best := -1
+	for _, o := range t.Offerings {
+		if usableJ(reqs, o) && (best < 0 || o.Price < best) {
+			best = o.Price
+		}
+	}
+	return best
+}
+
+func priceLabels(reqs []ReqJ, types []TypeJ, max int) []string {
+	l := []string{fmt.Sprintf("types<=%d", ((len(types)+4)/5)*5)}
+	seen := map[int]int{}
+	none := 0
+	for _, t := range types {
+		e := effJ(reqs, t)
+		seen[e]++
+		if e < 0 {
+			none++
+		}
+	}
+	tie := false
+	for _, c := range seen {
+		if c > 1 {
+			tie = true
+		}
+	}
+	if tie {
+		l = append(l, "price-tie")
+	}
+	if none > 0 {
+		l = append(l, "type-without-usable-offering")
+	}
+	switch {
+	case max <= 0:
+		l = append(l, "max<=0")
+	case max < len(types):
+		l = append(l, "truncating")
+		// tie across the cut?
+		es := make([]int, 0, len(types))
+		for _, t := range types {
+			e := effJ(reqs, t)
+			if e < 0 {
+				e = 1 << 40
+			}
+			es = append(es, e)
+		}
+		sort.Ints(es)
+		if es[max-1] == es[max] {
+			l = append(l, "tie-across-cut")
+		}
+	default:
+		l = append(l, "max>=len")
+	}
+	for _, r := range reqs {
+		l = append(l, "req:"+r.Op)
+	}
+	return l
+}
+
+// ---------------------------------------------------------------------------------------------
+// c19.offerings — Offerings.Available / Compatible / HasCompatible / Cheapest / MostExpensive
+// ---------------------------------------------------------------------------------------------
+
+type OffIn struct {
+	Reqs      []ReqJ `json:"reqs"`
+	Offerings []OffJ `json:"offerings"`
+}
+
+type OffOut struct {
+	Cheapest *int `json:"cheapest"` // price of Available().Compatible(reqs).Cheapest(), null when there is none
+	Dearest  *int `json:"dearest"`
+	Count    int  `json:"count"` // len(Available().Compatible(reqs))
+	Has      bool `json:"has"`   // Available().HasCompatible(reqs)
+}
+
+func genOff(r *rand.Rand, _ core.Tier) any {
+	return OffIn{Reqs: genReqs(r), Offerings: genOfferings(r, 6)}
+}
+
+func implOff(raw json.RawMessage) (any, error) {
+	var in OffIn
+	if err := json.Unmarshal(raw, &in); err != nil {
+		return nil, err
+	}
+	reqs := mkReqs(in.Reqs)
+	ofs := mkOfferings(in.Offerings)
+	sel := ofs.Available().Compatible(reqs)
+	out := OffOut{Count: len(sel), Has: ofs.Available().HasCompatible(reqs)}
+	if c := sel.Cheapest(); c != nil {
+		out.Cheapest = lo.ToPtr(priceInt(c.Price))
+	}
+	if d := sel.MostExpensive(); d != nil {
+		out.Dearest = lo.ToPtr(priceInt(d.Price))
+	}
+	return out, nil
+}
+
+// ---------------------------------------------------------------------------------------------
+// c19.tonodeclaim — NodeClaimTemplate.ToNodeClaim (OrderByPrice + lo.Slice(…, 0, MaxInstanceTypes))
+// ---------------------------------------------------------------------------------------------
+
+type ToNCIn struct {
+	Pool     string  `json:"pool"`
+	Static   bool    `json:"static"`
+	Reqs     []ReqJ  `json:"reqs"` // NodePool template requirements (zone / capacity-type)
+	Types    []TypeJ `json:"types"`
+	MaxTypes *int    `json:"max_types"` // value given to the package variable MaxInstanceTypes; nil = leave the default
+}
+
+type ToNCOut struct {
+	HasTypeReq bool     `json:"has_type_req"`
+	Types      []string `json:"types"` // values of the instance-type requirement, sorted
+	PoolLabel  string   `json:"pool_label"`
+	MaxUsed    int      `json:"max_used"` // the value MaxInstanceTypes had during the call
+}
+
+var maxTypesMu sync.RWMutex // MaxInstanceTypes is a package variable of the real code: writers set it for one case, readers only run passes
+
+func genToNC(r *rand.Rand, t core.Tier) any {
+	in := ToNCIn{Pool: fmt.Sprintf("pool-%d", r.IntN(5)), Static: r.IntN(8) == 0, Reqs: genReqs(r)}
+	// the pool's own requirements never use DoesNotExist on zone/capacity-type in practice, keep a little of it anyway
+	if r.IntN(12) == 0 {
+		// the real default (600): mostly small catalogs, now and then one around the bound (those cost ~0.5 s each in the driver)
+		n := 1 + r.IntN(20)
+		if big := map[core.Tier]int{core.Quick: 16, core.Thorough: 8}[t]; r.IntN(big) == 0 {
+			n = 595 + r.IntN(12)
+		}
+		in.Types = make([]TypeJ, 0, n)
+		for i := 0; i < n; i++ {
+			in.Types = append(in.Types, TypeJ{Name: fmt.Sprintf("t%04d", i), Offerings: []OffJ{{Zone: zones[r.IntN(3)], Ct: cts[r.IntN(2)], Price: pricePool[r.IntN(len(pricePool))] + r.IntN(3), Avail: r.IntN(10) != 0}}})
+		}
+		r.Shuffle(len(in.Types), func(i, j int) { in.Types[i], in.Types[j] = in.Types[j], in.Types[i] })
+		return in
+	}
+	in.Types = genTypes(r, 9, 4)
+	m := r.IntN(len(in.Types) + 2)
+	if r.IntN(8) == 0 {
+		m = 0
+	}
+	in.MaxTypes = &m
+	return in
+}
+
+func implToNC(raw json.RawMessage) (any, error) {
+	var in ToNCIn
+	if err := json.Unmarshal(raw, &in); err != nil {
+		return nil, err
+	}
+	np := test.NodePool(v1.NodePool{ObjectMeta: metav1.ObjectMeta{Name: in.Pool}})
+	np.UID = "uid-" + "pool"
+	for _, r := range in.Reqs {
+		np.Spec.Template.Spec.Requirements = append(np.Spec.Template.Spec.Requirements, v1.NodeSelectorRequirementWithMinValues{
+			Key: r.Key, Operator: corev1.NodeSelectorOperator(r.Op), Values: r.Vals,
+		})
+	}
+	if in.Static {
+		np.Spec.Replicas = lo.ToPtr(int64(1))
+	}
+	nct := provscheduling.NewNodeClaimTemplate(np)
+	for _, t := range in.Types {
+		nct.InstanceTypeOptions = append(nct.InstanceTypeOptions, mkBareType(t))
+	}
+	maxTypesMu.Lock()
+	old := provscheduling.MaxInstanceTypes
+	if in.MaxTypes != nil {
+		provscheduling.MaxInstanceTypes = *in.MaxTypes
+	}
+	used := provscheduling.MaxInstanceTypes
+	nc := nct.ToNodeClaim()
+	provscheduling.MaxInstanceTypes = old
+	maxTypesMu.Unlock()
+	out := ToNCOut{Types: []string{}, PoolLabel: nc.Labels[v1.NodePoolLabelKey], MaxUsed: used}
+	for _, r := range nc.Spec.Requirements {
+		if r.Key == itKey {
+			out.HasTypeReq = true
+			out.Types = append(out.Types, r.Values...)
+		}
+	}
+	sort.Strings(out.Types)
+	return out, nil
+}
+
+// ---------------------------------------------------------------------------------------------
+// c19.parallel — parallelizeUntil (through the verif hook) under forced interleavings
+// ---------------------------------------------------------------------------------------------
+
+type ParIn struct {
+	Workers int    `json:"workers"`
+	Cont    []bool `json:"cont"`  // what doWorkPiece(i) returns
+	Delay   []int  `json:"delay"` // Gosched() calls inside doWorkPiece(i) before it returns
+}
+
+type ParOut struct {
+	Processed []int `json:"processed"` // how often each piece was evaluated
+	MaxActive int   `json:"max_active"`
+	Returned  bool  `json:"returned_after_all_finished"` // no evaluation was still running when parallelizeUntil returned
+	// the publication protocol of addToNewNodeClaim replayed on top: least index that returned false among the processed
+	Published int `json:"published"` // -1 = none
+}
+
+func genPar(r *rand.Rand, t core.Tier) any {
+	maxP := 12
+	if t == core.Thorough {
+		maxP = 40
+	}
+	n := r.IntN(maxP + 1)
+	in := ParIn{Workers: []int{1, 1, 2, 2, 3, 5, 8, 16, 0}[r.IntN(9)], Cont: make([]bool, n), Delay: make([]int, n)}
+	pTrue := []float64{0.2, 0.5, 0.8, 0.95, 1.0}[r.IntN(5)]
+	for i := range in.Cont {
+		in.Cont[i] = r.Float64() < pTrue
+		switch r.IntN(4) {
+		case 0:
+			in.Delay[i] = 0
+		case 1:
+			in.Delay[i] = r.IntN(4)
+		case 2:
+			in.Delay[i] = r.IntN(40)
+		default:
+			// earlier pieces slower than later ones: a later success is published first
+			in.Delay[i] = (n - i) * 3
+		}
+	}
+	return in
+}
+
+func implPar(raw json.RawMessage) (any, error) {
+	var in ParIn
+	if err := json.Unmarshal(raw, &in); err != nil {
+		return nil, err
+	}
+	n := len(in.Cont)
+	processed := make([]int32, n)
+	var active, maxActive, running int32
+	var mu sync.Mutex
+	published := -1
+	provscheduling.ParallelizeUntilForVerif(in.Workers, n, func(i int) bool {
+		a := atomic.AddInt32(&active, 1)
+		atomic.AddInt32(&running, 1)
+		for {
+			m := atomic.LoadInt32(&maxActive)
+			if a <= m || atomic.CompareAndSwapInt32(&maxActive, m, a) {
+				break
+			}
+		}
+		for k := 0; k < in.Delay[i]; k++ {
+			runtime.Gosched()
+		}
+		atomic.AddInt32(&processed[i], 1)
+		if !in.Cont[i] {
+			mu.Lock()
+			if published < 0 || i < published {
+				published = i
+			}
+			mu.Unlock()
+		}
+		atomic.AddInt32(&active, -1)
+		atomic.AddInt32(&running, -1)
+		return in.Cont[i]
+	})
+	out := ParOut{Processed: make([]int, n), MaxActive: int(maxActive), Returned: atomic.LoadInt32(&running) == 0, Published: published}
+	for i := range processed {
+		out.Processed[i] = int(atomic.LoadInt32(&processed[i]))
+	}
+	return out, nil
+}
+
+// ---------------------------------------------------------------------------------------------
+// ops
+// ---------------------------------------------------------------------------------------------
+
+func n(quick, thorough int) func(core.Tier) int {
+	return func(t core.Tier) int {
+		if t == core.Thorough {
+			return thorough
+		}
+		return quick
+	}
+}
+
+func Ops() []*core.Op {
+	return []*core.Op{
+		{
+			Name: "c19.weight",
+			Doc:  "nodepoolutils.OrderByWeight on 0..8 (thorough: 0..24) NodePools with nil/tied/out-of-range weights and shared-prefix names; the order of (name, weight)",
+			N:    n(3000, 60000),
+			Gen:  genWeight,
+			Enum: enumWeight,
+			Impl: implWeight,
+			Rule: "non-trivial = at least two pools share a weight (nil counts as 0), so the name tie-break decides",
+			Nontrivial: func(raw json.RawMessage, _ any) bool {
+				var in WeightIn
+				json.Unmarshal(raw, &in)
+				return weightTie(in)
+			},
+			Labels: func(raw json.RawMessage, _ any) []string {
+				var in WeightIn
+				json.Unmarshal(raw, &in)
+				l := []string{fmt.Sprintf("pools=%d", min(len(in.Pools), 9))}
+				if weightTie(in) {
+					l = append(l, "weight-tie")
+				}
+				for _, p := range in.Pools {
+					if p.Weight == nil {
+						l = append(l, "nil-weight")
+						break
+					}
+				}
+				return l
+			},
+			Signature:      func(json.RawMessage, any) string { return "weight" },
+			ExhaustiveNote: "every list of ≤3 pools over {a,ab,b}×{nil,1,2} (820 lists)",
+			Shrink: func(raw json.RawMessage) []any {
+				var in WeightIn
+				json.Unmarshal(raw, &in)
+				var out []any
+				for _, c := range core.ShrinkList(in.Pools) {
+					out = append(out, WeightIn{Pools: c})
+				}
+				return out
+			},
+		},
+		{
+			Name: "c19.price",
+			Doc:  "InstanceTypes.OrderByPrice(reqs) and InstanceTypes.Truncate(ctx, reqs, max) (incl. minValues on the instance-type key under both policies) on catalogs with price ties, unavailable and incompatible offerings",
+			N:    n(4000, 80000),
+			Gen:  genPrice,
+			Impl: implPrice,
+			Rule: "non-trivial = two types share their effective price (cheapest compatible available offering) or a type has none",
+			Nontrivial: func(raw json.RawMessage, _ any) bool {
+				var in PriceIn
+				json.Unmarshal(raw, &in)
+				for _, l := range priceLabels(in.Reqs, in.Types, in.Max) {
+					if l == "price-tie" || l == "type-without-usable-offering" {
+						return true
+					}
+				}
+				return false
+			},
+			Labels: func(raw json.RawMessage, impl any) []string {
+				var in PriceIn
+				json.Unmarshal(raw, &in)
+				l := priceLabels(in.Reqs, in.Types, in.Max)
+				if in.MinTypes != nil {
+					l = append(l, "minValues")
+					if m, ok := impl.(map[string]any); ok && m["err"] == "minvalues" {
+						l = append(l, "minValues-error")
+					}
+				}
+				return l
+			},
+			Signature: func(json.RawMessage, any) string { return "price" },
+			Shrink: func(raw json.RawMessage) []any {
+				var in PriceIn
+				json.Unmarshal(raw, &in)
+				var out []any
+				for _, c := range core.ShrinkList(in.Types) {
+					x := in
+					x.Types = c
+					out = append(out, x)
+				}
+				for _, c := range core.ShrinkList(in.Reqs) {
+					x := in
+					x.Reqs = c
+					out = append(out, x)
+				}
+				for i := range in.Types {
+					for _, c := range core.ShrinkList(in.Types[i].Offerings) {
+						x := in
+						x.Types = append([]TypeJ{}, in.Types...)
+						x.Types[i].Offerings = c
+						out = append(out, x)
+					}
+				}
+				return out
+			},
+		},
+		{
+			Name: "c19.offerings",
+			Doc:  "Offerings.Available().Compatible(reqs) with Cheapest/MostExpensive/HasCompatible: the price OrderByPrice ranks by",
+			N:    n(3000, 60000),
+			Gen:  genOff,
+			Impl: implOff,
+			Rule: "non-trivial = at least one offering is filtered out and at least one survives",
+			Nontrivial: func(raw json.RawMessage, impl any) bool {
+				var in OffIn
+				json.Unmarshal(raw, &in)
+				k := 0
+				for _, o := range in.Offerings {
+					if usableJ(in.Reqs, o) {
+						k++
+					}
+				}
+				return k > 0 && k < len(in.Offerings)
+			},
+			Labels: func(raw json.RawMessage, _ any) []string {
+				var in OffIn
+				json.Unmarshal(raw, &in)
+				k := 0
+				for _, o := range in.Offerings {
+					if usableJ(in.Reqs, o) {
+						k++
+					}
+				}
+				return []string{fmt.Sprintf("offerings=%d", len(in.Offerings)), fmt.Sprintf("usable=%d", k)}
+			},
+			Signature: func(json.RawMessage, any) string { return "offerings" },
+			Shrink: func(raw json.RawMessage) []any {
+				var in OffIn
+				json.Unmarshal(raw, &in)
+				var out []any
+				for _, c := range core.ShrinkList(in.Offerings) {
+					out = append(out, OffIn{Reqs: in.Reqs, Offerings: c})
+				}
+				for _, c := range core.ShrinkList(in.Reqs) {
+					out = append(out, OffIn{Reqs: c, Offerings: in.Offerings})
+				}
+				return out
+			},
+		},
+		{
+			Name: "c19.tonodeclaim",
+			Doc:  "NewNodeClaimTemplate(nodePool).ToNodeClaim(): the instance-type requirement of the NodeClaim = the MaxInstanceTypes cheapest options (package variable set to small values, and the real default 600 against catalogs of 595..606 types); static pools get none",
+			N:    n(1500, 15000),
+			Gen:  genToNC,
+			Impl: implToNC,
+			Rule: "non-trivial = the bound truncates (more options than MaxInstanceTypes)",
+			Nontrivial: func(raw json.RawMessage, impl any) bool {
+				var in ToNCIn
+				json.Unmarshal(raw, &in)
+				m := 600
+				if in.MaxTypes != nil {
+					m = *in.MaxTypes
+				}
+				return !in.Static && len(in.Types) > m
+			},
+			Labels: func(raw json.RawMessage, _ any) []string {
+				var in ToNCIn
+				json.Unmarshal(raw, &in)
+				l := []string{}
+				if in.Static {
+					l = append(l, "static")
+				}
+				if in.MaxTypes == nil {
+					l = append(l, "default-max")
+					if len(in.Types) > 600 {
+						l = append(l, "over-600")
+					}
+				} else {
+					l = append(l, priceLabels(in.Reqs, in.Types, *in.MaxTypes)...)
+				}
+				return l
+			},
+			Signature: func(json.RawMessage, any) string { return "tonodeclaim" },
+			Shrink: func(raw json.RawMessage) []any {
+				var in ToNCIn
+				json.Unmarshal(raw, &in)
+				var out []any
+				if len(in.Types) > 60 { // big catalogs cost ~0.5 s per evaluation: halves only
+					h := len(in.Types) / 2
+					for _, c := range [][]TypeJ{in.Types[:h], in.Types[h:]} {
+						x := in
+						x.Types = append([]TypeJ{}, c...)
+						out = append(out, x)
+					}
+					return out
+				}
+				for _, c := range core.ShrinkList(in.Types) {
+					x := in
+					x.Types = c
+					out = append(out, x)
+				}
+				for _, c := range core.ShrinkList(in.Reqs) {
+					x := in
+					x.Reqs = c
+					out = append(out, x)
+				}
+				return out
+			},
+		},
+		{
+			Name: "c19.parallel",
+			Doc:  "parallelizeUntil (verif hook) with 0..16 workers over 0..12 (thorough 0..40) pieces, per-piece Gosched delays that make later pieces finish first; which pieces were evaluated and the least stopping index published under a mutex",
+			N:    n(3000, 40000),
+			Gen:  genPar,
+			Impl: implPar,
+			Rule: "non-trivial = more than one worker and some piece before the last one stops its worker",
+			Nontrivial: func(raw json.RawMessage, _ any) bool {
+				var in ParIn
+				json.Unmarshal(raw, &in)
+				if in.Workers < 2 {
+					return false
+				}
+				for i, c := range in.Cont {
+					if !c && i < len(in.Cont)-1 {
+						return true
+					}
+				}
+				return false
+			},
+			Labels: func(raw json.RawMessage, impl any) []string {
+				var in ParIn
+				json.Unmarshal(raw, &in)
+				l := []string{fmt.Sprintf("workers=%d", in.Workers)}
+				if m, ok := impl.(map[string]any); ok {
+					if ma, ok := m["max_active"].(json.Number); ok {
+						l = append(l, "max-active="+ma.String())
+					}
+				}
+				return l
+			},
+			Signature: func(json.RawMessage, any) string { return "parallel" },
+			Shrink: func(raw json.RawMessage) []any {
+				var in ParIn
+				json.Unmarshal(raw, &in)
+				var out []any
+				for i := range in.Cont {
+					x := ParIn{Workers: in.Workers}
+					x.Cont = append(append([]bool{}, in.Cont[:i]...), in.Cont[i+1:]...)
+					x.Delay = append(append([]int{}, in.Delay[:i]...), in.Delay[i+1:]...)
+					out = append(out, x)
+				}
+				return out
+			},
+		},
+		passOp(),
+		reservedOp(),
+	}
+}
+
+var _ = resource.MustParse
